@@ -8,9 +8,10 @@ Variable eval : st -> expr -> st * (val + val).
 Variable truthy : val -> bool.
 Variable poll : st -> st * option val.
 Variable recatch : val -> val.
+Variable veq : val -> val -> bool.
 Notation stmt := (stmt expr).
-Notation exec_o := (exec_o eval truthy poll recatch).
-Notation exec_s := (exec_s eval truthy poll recatch).
+Notation exec_o := (exec_o eval truthy poll recatch veq).
+Notation exec_s := (exec_s eval truthy poll recatch veq).
 
 Definition conv (LS : list label) (c : compl val) : compl val :=
   match c with CBreak t => if mem t LS then CNormal else c | _ => c end.
@@ -232,6 +233,15 @@ Proof.
       apply nj_slist. intros; apply IH. eapply targets_list_false; eauto. }
     apply nj_sfinally; [|intros; apply Hlist; destruct f; simpl in *; congruence].
     apply nj_scatch; [apply Hlist; assumption|intros; apply Hlist; destruct c; simpl in *; congruence].
+  - rewrite targets_switch in Ht.
+    destruct (eval s0 e) as [s1 [v|x]]; [|exact I].
+    destruct (find_case eval veq cases v s1 0) as [s2 [r|x]]; [|exact I].
+    destruct (switch_target cases r) as [i|]; [|exact I].
+    pose proof (nj_slist t (exec_s fuel) (body_from cases i)) as Hb.
+    specialize (Hb (fun s0' LS' x Hx => IH x s0' LS' (targets_list_false t _ (targets_list_skipn t cases i Ht) x Hx)) s2).
+    destruct (slist (exec_s fuel) s2 (body_from cases i)) as [s3 [c|]]; simpl in *; [|exact I].
+    destruct c; simpl in *; try exact I; try assumption.
+    destruct (mem l (LS ++ [0])); simpl; [exact I|assumption].
 Qed.
 
 (* ------------------------------------------------------------------ *)
@@ -628,7 +638,7 @@ Proof.
   { repeat split; simpl; try exact I. now left. }
   cbn [Sem.exec_o Sem.exec_s]. destruct (poll s00) as [s0 [xp|]].
   { repeat split; simpl; try reflexivity. now left. }
-  destruct s as [e|l|e s1 s2|e body|body e|init test upd body|l|l|e|l s|e|b c f]; cbn [Sem.exec_o Sem.exec_s].
+  destruct s as [e|l|e s1 s2|e body|body e|init test upd body|l|l|e|l s|e|b c f|e cases]; cbn [Sem.exec_o Sem.exec_s].
   - (* SExpr *)
     destruct (eval s0 e) as [s1 [v|x]]; repeat split; simpl; try exact I; try reflexivity; now left.
   - (* SBlock *)
@@ -738,6 +748,29 @@ Proof.
       - destruct (sim_block fuel IH b s1 G LS Hwb Hb) as [A1 [A2 A3]]. repeat split; try assumption. now right. }
     pose proof (sim_catch fuel IH _ _ c G LS H1 Hwc Hc HGc) as H2.
     exact (sim_finally fuel IH _ _ f G LS H2 Hwff Hf HGf).
+  - (* SSwitch *)
+    rewrite wf_switch in Hwf.
+    destruct (eval s0 e) as [s1 [v|x]].
+    2:{ repeat split; simpl; try reflexivity. now right. }
+    destruct (find_case eval veq cases v s1 0) as [s2 [r|x]].
+    2:{ repeat split; simpl; try reflexivity. now right. }
+    destruct (switch_target cases r) as [i|].
+    2:{ repeat split; simpl; try exact I. now right. }
+    assert (HGb : forall g, In g G -> targets_list g (body_from cases i) = false).
+    { intros g Hg. apply targets_list_skipn. rewrite <- targets_switch with (e := e). auto. }
+    pose proof (sim_block fuel IH (body_from cases i) s2 G (LS ++ [0]) (wf_list_skipn cases i Hwf) HGb) as Hs.
+    rewrite app_assoc in Hs.
+    destruct (oblock (exec_o fuel) s2 ((G ++ LS) ++ [0]) (body_from cases i)) as [[s3 L3] ro].
+    destruct (slist (exec_s fuel) s2 (body_from cases i)) as [s3' rs].
+    destruct Hs as [Hst [Hrel HL]]. simpl in *. subst s3' L3.
+    destruct rs as [c|]; [|repeat split; simpl; try assumption; now right].
+    destruct c as [|t|t|v'|v']; try (repeat split; simpl; try assumption; now right).
+    destruct ro as [o|w|]; cbn [rel] in Hrel; try contradiction.
+    unfold conv in Hrel.
+    destruct (mem t (LS ++ [0])) eqn:E.
+    + repeat split; simpl; try assumption. now right.
+    + rewrite mem_app in E. apply orb_false_iff in E as [EL _].
+      repeat split; simpl; try rewrite EL; try assumption. now right.
 Qed.
 
 (* Top-level statement of the prototype theorem: a well-formed program run from rest. *)
